@@ -51,13 +51,18 @@ GUARD_OUTBOUND = [
     "discrim.regexopt.ECMAScript_would_change_members",
     "def.with_two_invalid_items", "parser.definition_compared_with_what_was_written",
     "dur.result_ok_with_fraction", "dur.result_error", "dur.near_miss", "invalid.key_keyword_on_subtag",
+    "func.values_9_to_40", "def.lines_13_to_30", "line.conditions_6_to_10",
+    "discrim.slow_regex_match_found_after_backtracking",
 ]
+# only counters that depend on the GENERATOR and the Go-side oracles, never on what the implementation answered
 GUARD_CTL = [
-    "discrim.override_group_built_nonempty", "discrim.large_pool_group_built",
-    "discrim.multi_subscription_group_built", "group.members_are_override_clones",
+    "gen.region_run_at_debug_level", "gen.region_run_at_panic_level", "gen.call_with_override_group",
+    "gen.call_with_2_plus_groups", "gen.call_with_large_pool", "pool.subscriptions_2_plus",
     "policy.fixed_near_range", "policy.fixed_at_len", "pool.with_unparsable_link",
-    "discrim.subtag_group_after_unfiltered_override_group_sees_tags", "discrim.sequence_of_2_plus_groups_built",
+    "discrim.subtag_group_after_unfiltered_override_group_sees_tags",
+    "discrim.subtag_group_after_unfiltered_override_group_sees_tags_at_debug_level",
 ]
+MIRRORED_GO = "go1.26"   # the time.ParseDuration that lean/DaeVerif/C14/Model.lean mirrors
 
 
 # --------------------------------------------------------------------------- region extraction
@@ -101,7 +106,9 @@ def extract_group_region(ctx):
     start_pat = "dialerSet := outbound.NewDialerSetFromLinksContext("
     a = src.find(start_pat)
     if a < 0 or src.find(start_pat, a + 1) >= 0:
-        return None, "start marker `%s` not found exactly once" % start_pat
+        return None, ("start marker `%s` not found exactly once (the wrapper provides exactly these free identifiers to "
+                      "the region: option tagToNodeList groups global log core disableKernelAliveCallback deferFuncs "
+                      "outbounds dialerSet err)" % start_pat)
     a = src.rfind("\n", 0, a) + 1
     m = re.compile(r"for\s+_,\s*group\s*:=\s*range\s+groups\s*\{").search(src, a)
     if not m:
@@ -183,16 +190,26 @@ def canon(line):
     return line
 
 
+class DriverFailed(Exception):
+    pass
+
+
 def side_dict(s):
     return dict(kv.split("=", 1) for kv in s.split()[1:] if "=" in kv)
 
 
-def compare_stream(ctx, name, report, stricter, permissive):
+def compare_stream(ctx, name, report, stricter, permissive, structonly, toolchain):
     ops, impl, model, side = (os.path.join(ctx.out, f"{name}.{e}") for e in ("ops", "impl", "model", "side"))
-    if not ctx.driver("c14drv", ops, model):
-        ctx.proof_failures.append(f"model driver c14drv failed to run on {name}")
+    if not ctx.driver("c14drv", ops, model) or len(read_lines(model)) != len(read_lines(ops)):
+        # a killed / failed driver is an infrastructure failure (exit 2), never a property violation
+        raise DriverFailed(f"model driver c14drv failed or was killed on stream {name}")
     mism = ctx.diff_streams(ops, impl, model, name, canon=canon)
     o, i, mo, s = read_lines(ops), read_lines(impl), read_lines(model), read_lines(side)
+    goversion = ""
+    try:
+        goversion = open(os.path.join(ctx.out, "c14.goversion")).read().strip()
+    except OSError:
+        pass
     cls_same = cls_diff = 0
     for a, b in zip(i, mo):
         if canon(a) == "ERR" and canon(b) == "ERR":
@@ -210,6 +227,17 @@ def compare_stream(ctx, name, report, stricter, permissive):
         if canon(im) == "ERR" and mdl.startswith("ok ") and "pol=" in mdl and (
                 sd.get("lenient") == "true" or "sel=range" in mdl or "sel=empty" in mdl):
             stricter.append((name, ln))
+            continue
+        # defensive strictness / leniency on forms only the struct path can express (condition without
+        # values, line without conditions, annotation-length guard, policy held as *Function): no real
+        # configuration is affected
+        if sd.get("structonly") == "true" and (canon(im) == "ERR") != (canon(mdl) == "ERR"):
+            structonly.append((name, ln))
+            continue
+        # the Go toolchain's time.ParseDuration is not dae code: a toolchain other than the mirrored one
+        # may differ from the Lean mirror without any change in dae
+        if op.startswith("dur ") and goversion and not goversion.startswith(MIRRORED_GO):
+            toolchain.append((name, ln))
             continue
         # the implementation is MORE PERMISSIVE in the one direction whose meaning is fixed by the
         # documentation's own vocabulary: `keyword:` on `subtag(...)` = substring of the tag.  Accepted
@@ -234,14 +262,18 @@ def compare_stream(ctx, name, report, stricter, permissive):
     for ln, op, im, mdl in real[:6]:
         report("model", f"implementation differs from proved model ({name} line {ln}): impl `{im[:200]}` model `{mdl[:200]}`",
                {"stream": name, "line": ln, "op": op, "impl": im, "model": mdl,
-                "replay": "VERIF_SEED=%d ./check C14 %s" % (ctx.seed, ctx.tier)})
+                "replay": ("VERIF_SEED=%d ./check C14 %s" % (ctx.seed, ctx.tier)) if name == "c14" else
+                          ("the `op` text above IS the replay (feed it to lean/.lake/build/bin/c14drv); the c14ctl "
+                           "stream is not regenerated by the seed alone: the real NewDialerSetFromLinksContext "
+                           "iterates a Go map, so the pool order differs from run to run")})
     return o, i, s
 
 
 def run(ctx):
     ctx.trusted += [
         "regexp2.Compile/MatchString and time.ParseDuration are oracles of the model (library code, evaluated by the harness independently of the filter code and passed to the driver as tables); the option word passed to Compile is visible to the tie only (discrimination counters discrim.regexopt.*)",
-        "the pool+group region of control.NewControlPlane is executed VERBATIM (extracted by checks/c14.py from the current control_plane.go into a function of package control; *controlPlaneCore replaced by a stub whose outboundAliveChangeCallback does nothing); the rest of NewControlPlane is not run",
+        "the pool+group region of control.NewControlPlane is executed VERBATIM (extracted by checks/c14.py from the current control_plane.go into a function of package control; *controlPlaneCore replaced by a stub whose outboundAliveChangeCallback only records the outbound id it is asked for); half of the calls with a Debug-level logger so that the region's IsLevelEnabled(Debug) arm runs; the rest of NewControlPlane (incl. everything after the loop's closing brace) is not run",
+        "time.ParseDuration of the Go toolchain that builds the harness (mirrored in Lean from go1.26 and compared on the `dur` ops; with another toolchain a difference is a NOTE); filterHit discards the error of regexp2's MatchString, so a time-out would silently count as no match: no MatchTimeout is set anywhere in /repo today, pinned by two directed slow-regex ops",
         "link -> (name, dialer) is the outbound library's job; the harness only checks that names/tags written as links come back unchanged",
         "text -> []*Function is the real config parser's job (C17); C14 compares what it wrote with what the parser delivered (valid UTF-8 definitions) and models from config.Group on",
     ]
@@ -255,7 +287,7 @@ def run(ctx):
         if budget[kind] <= 4:
             ctx.report(what, obj)
 
-    stricter, permissive = [], []
+    stricter, permissive, structonly, toolchain = [], [], [], []
     hov = os.path.join(VERIF, "harness", "overlay")
 
     # ------------------------------------------------------------------ A. package outbound
@@ -267,7 +299,11 @@ def run(ctx):
     if rc != 0 or not os.path.exists(os.path.join(ctx.out, "c14.ops")):
         ctx.say("HARNESS-FAILED", out[-3000:])
         return 2
-    o, i, s = compare_stream(ctx, "c14", report, stricter, permissive)
+    try:
+        o, i, s = compare_stream(ctx, "c14", report, stricter, permissive, structonly, toolchain)
+    except DriverFailed as e:
+        ctx.say("DRIVER-FAILED", e)
+        return 2
 
     # property-level oracles on the implementation side (independent of the Lean model):
     #  (1) a definition is rejected iff it is invalid (documented inputs/keys, compiling regexes,
@@ -293,7 +329,7 @@ def run(ctx):
         if sd.get("parserchanged", "-") != "-":
             report("parser", "config parser delivered another definition than the one written: "
                    + bytes.fromhex(sd["parserchanged"][1:]).decode("utf-8", "replace"), {"op": op, "impl": im})
-        if lens_ok and valid and canon(im) == "ERR":
+        if lens_ok and valid and canon(im) == "ERR" and sd.get("structonly") != "true":
             report("valid-rejected", f"valid group definition rejected by the implementation: {im[:200]}", {"op": op, "impl": im})
         if lens_ok and not valid and im.startswith("ok ") and sd.get("kwsubtag") == "true" and \
                 len(im.split()) == 3 and "spec=" + im.split()[1] == im.split()[2]:
@@ -328,7 +364,11 @@ def run(ctx):
     if rc != 0 or not os.path.exists(os.path.join(ctx.out, "c14ctl.ops")):
         ctx.say("HARNESS-FAILED", out[-3000:])
         return 2
-    co, ci, cs = compare_stream(ctx, "c14ctl", report, stricter, permissive)
+    try:
+        co, ci, cs = compare_stream(ctx, "c14ctl", report, stricter, permissive, structonly, toolchain)
+    except DriverFailed as e:
+        ctx.say("DRIVER-FAILED", e)
+        return 2
     n_ctl = n_pool_checked = 0
     for k, (op, im) in enumerate(zip(co, ci)):
         sd = side_dict(cs[k]) if k < len(cs) else {}
@@ -353,12 +393,13 @@ def run(ctx):
                    {"op": op, "impl": im})
     cstats = json.load(open(os.path.join(ctx.out, "c14ctl.stats.json")))
 
-    # ------------------------------------------------------------------ generator guards
-    dead = [k for k in GUARD_OUTBOUND if not stats["counters"].get(k)] + \
-           ["ctl:" + k for k in GUARD_CTL if not cstats["counters"].get(k)]
-    if dead:
-        ctx.say("GENERATOR-DEGENERATE C14: discrimination counter(s) at 0:", ", ".join(dead))
-        return 2
+    if structonly:
+        ctx.say(f"NOTE C14: {len(structonly)} op(s) on forms only the struct path can express (condition without values, line "
+                "without conditions, annotation-length guard, *Function policy) are answered differently by model and code; "
+                "no configuration the parser can produce is affected")
+    if toolchain:
+        ctx.say(f"NOTE C14: {len(toolchain)} duration string(s) are parsed differently by this Go toolchain's "
+                f"time.ParseDuration and by the Lean mirror of {MIRRORED_GO}: update parseDuration in Model.lean")
     if permissive:
         ctx.say(f"NOTE C14: the implementation accepts `keyword:` on subtag(...) in {len(permissive)} op(s) the model rejects, "
                 "with exactly the substring-of-the-tag meaning: a language extension the property allows; update "
@@ -378,18 +419,36 @@ def run(ctx):
     ctx.cov["control_plane_region_ops_pool_as_written"] = n_pool_checked
     ctx.cov["stricter_than_model_in_lenient_zone"] = len(stricter)
     ctx.cov["more_permissive_keyword_on_subtag"] = len(permissive)
+    ctx.cov["struct_only_forms_answered_differently"] = len(structonly)
+    ctx.cov["duration_differs_with_other_go_toolchain"] = len(toolchain)
+    try:
+        ctx.cov["go_toolchain_of_the_harness"] = open(os.path.join(ctx.out, "c14.goversion")).read().strip()
+    except OSError:
+        pass
     ctx.cov["disagreements_by_kind"] = budget
     ctx.assumptions = [
-        "pools of 0..14 nodes (1.5 % of them 64..600 nodes), definitions of 0..12 lines x 0..5 conditions x 0..6 values, "
-        "generated (seeded); about two thirds of the definitions reach the code through the real config parser, the "
+        "pools of 0..14 nodes (1.5 % of them 64..600 nodes), definitions of 0..30 lines x 0..10 conditions x 0..40 values, "
+        "generated (seeded); about half of the definitions reach the code through the real config parser, the "
         "rest are built as structs (values the config syntax cannot express, odd policy types, length-mismatch guard)",
+        "the c14ctl stream is not reproducible by seed alone (the real pool constructor iterates a Go map): its op texts, "
+        "counters and distinct_nontrivial vary by a few units between runs; replay files carry the op text",
         "error answers are compared as `configuration error` only (class/wording/precedence agreement is recorded in "
         "coverage.error_class_agreement, not enforced)",
     ]
-    return ctx.finish(
+    rc = ctx.finish(
         rule="ops = `fa` (pool, filter lines, annotations -> members with annotations | error) and `grp` (policy + the same -> "
-             "group members, fixed(i) selection under every network type | error); stream c14 = hand-made pools in package "
-             "outbound, stream c14ctl = pools written as subscription links and groups built by the verbatim NewControlPlane "
-             "region; one op is one (pool, group definition) pair; the regexp2 / ParseDuration results the op needs travel "
-             "with it; distinct_nontrivial counts distinct `fa` + control-plane `grp` ops",
+             "group members, fixed(i) selection under every network type | error), `grps` (several groups over one pool through "
+             "the verbatim NewControlPlane region, stream c14ctl, pools written as subscription links) and `dur` (a duration "
+             "string -> ns | error); stream c14 = hand-made pools in package outbound; one op is one (pool, group definition) pair; the regexp2 / ParseDuration results the op needs travel "
+             "with it; distinct_nontrivial counts distinct `fa` + control-plane `grps` ops",
         evaluations=len(o) + len(co), distinct=len(distinct))
+    if rc != 0:
+        return rc          # recorded violations win over everything else
+    # generator guards: a tier in which one of these counters is 0 is blind against a whole class of
+    # defects: not OK (exit 2), after the verdict above has been printed and the evidence written
+    dead = [k for k in GUARD_OUTBOUND if not stats["counters"].get(k)] + \
+           ["ctl:" + k for k in GUARD_CTL if not cstats["counters"].get(k)]
+    if dead:
+        ctx.say("GENERATOR-DEGENERATE C14: discrimination counter(s) at 0:", ", ".join(dead))
+        return 2
+    return 0
